@@ -141,7 +141,7 @@ func (v *validator) checkCRL(chain []*x509.Certificate, softfail bool) error {
 	for i := range chain {
 		cert = chain[len(chain)-1-i]
 		// check in reverse order to prevent CRL expiration errors due to revoked CAs no longer issuing CRLs
-		if err = v.validateCert(cert); err != nil {
+		if err = v.validateCert(cert, softfail); err != nil {
 			errOut := fmt.Errorf("%w: subject=%s, S/N=%s, issuer=%s", err, cert.Subject.String(), cert.SerialNumber.String(), cert.Issuer.String())
 			if softfail && (errors.Is(err, ErrCRLExpired) || errors.Is(err, ErrCRLMissing) || errors.Is(err, ErrDenylistMissing)) {
 				// Accept the certificate even if it cannot be properly validated against the CRL or denylist
@@ -171,11 +171,21 @@ func (v *validator) SetVerifyPeerCertificateFunc(config *tls.Config) error {
 	return nil
 }
 
-func (v *validator) validateCert(cert *x509.Certificate) error {
+// If softfail is set, errors that checkCRL bypasses do not end the validation: the first one is returned after the remaining checks,
+// so a certificate that is banned or revoked (on any of its CRLs) is never accepted because its status could not be established elsewhere.
+func (v *validator) validateCert(cert *x509.Certificate, softfail bool) error {
+	var bypassed error
+	bypass := func(err error) bool {
+		if softfail && bypassed == nil {
+			bypassed = err
+		}
+		return softfail
+	}
+
 	// Check if a denylist is in use
 	if v.denylist != nil {
 		// Validate the cert against the denylist
-		if err := v.denylist.ValidateCert(cert); err != nil {
+		if err := v.denylist.ValidateCert(cert); err != nil && !(errors.Is(err, ErrDenylistMissing) && bypass(err)) {
 			// Return any denylist error, blocking the certificate
 			return err
 		}
@@ -198,6 +208,9 @@ func (v *validator) validateCert(cert *x509.Certificate) error {
 					WithField("Subject", cert.Subject.String()).
 					WithField("S/N", cert.SerialNumber.String()).
 					Warn("cert validation failed because CRL cannot be added")
+				if bypass(ErrCRLMissing) {
+					continue
+				}
 				return ErrCRLMissing
 			}
 			// update loop params
@@ -214,6 +227,9 @@ func (v *validator) validateCert(cert *x509.Certificate) error {
 					WithField("S/N", cert.SerialNumber.String()).
 					WithField("endpoint", endpoint).
 					Warn("certificate validation failed because CRL cannot be updated")
+				if bypass(ErrCRLMissing) {
+					continue
+				}
 				return ErrCRLMissing
 			}
 			// update loop params
@@ -228,12 +244,12 @@ func (v *validator) validateCert(cert *x509.Certificate) error {
 
 		// check CRL status.
 		// This check comes last for softfail purposes. This way a revoked certificate on an outdated CRL is still treated as revoked.
-		if !nowFunc().Before(crl.list.NextUpdate) {
+		if !nowFunc().Before(crl.list.NextUpdate) && !bypass(ErrCRLExpired) {
 			// CA expiration is checked earlier in the chain
 			return ErrCRLExpired
 		}
 	}
-	return nil
+	return bypassed
 }
 
 func (v *validator) AddTruststore(chain []*x509.Certificate) error {
